@@ -401,11 +401,18 @@ func (d *drv) runCase(in *caseInput) {
 		}
 	case "err":
 		c.eClass = "err"
-		if in.Kind != "failing" {
+		if in.Kind != "failing" && in.Kind != "shared" {
 			d.fail(in, "c11-generator", "generated document was rejected by MerklizeJSONLD: "+mo.Msg, "")
 		}
 	default:
 		d.fail(in, "c11-"+mo.Class, "MerklizeJSONLD: "+mo.Msg, "")
+	}
+	if in.Kind == "shared" {
+		// `facts` does not model node sharing: the entries are not compared for these documents
+		c.eClass = "skip"
+		if mo.Class == "ok" {
+			d.fail(in, "c11-shared-node-accepted", "a document in which one @id node is referenced from two fields has no unique path per field, but was merklized", "")
+		}
 	}
 	if in.Kind == "failing" && mo.Class == "ok" {
 		d.fail(in, "c11-failing-context", "a document whose context cannot be loaded was merklized", "")
@@ -815,6 +822,35 @@ func (d *drv) switchCase(g *gen) *caseInput {
 		Features: append(sortedKeys(gd.Features), "loader-switch")}
 }
 
+// sharedCase: one IRI-identified node referenced from two fields (friend:{id:X,age:30}, spouse:{id:X}).  There is no
+// unique path for its fields: MerklizeJSONLD must reject the document; if it is accepted, the document-side path of
+// every field must still be the key of a stored entry (the ordinary field oracles run).
+func (d *drv) sharedCase(g *gen) *caseInput {
+	r := d.cfg.Rng
+	g.alias, g.prefix = false, false
+	T, C := g.term("T"), g.term("T")
+	friend, spouse, age, name := g.term("p"), g.term("p"), g.term("p"), g.term("p")
+	iri := func(t string) string { return vocab + t }
+	ctx := map[string]any{T: iri(T), C: iri(C), friend: iri(friend), spouse: iri(spouse),
+		age: map[string]any{"@id": iri(age), "@type": xsd + "integer"}, name: iri(name)}
+	g.n++
+	x := fmt.Sprintf("urn:shared:%d", g.n)
+	full := map[string]any{"@id": x, "@type": C, age: float64(30 + r.Intn(40))}
+	ref := map[string]any{"@id": x}
+	if r.Intn(2) == 0 {
+		ref[name] = "n"
+	}
+	first, second := friend, spouse
+	if r.Intn(2) == 0 {
+		first, second = spouse, friend
+	}
+	doc := map[string]any{"@context": ctx, "@type": T, first: full, second: ref}
+	lf := leaf{DocPath: []string{first, age}, Parts: []any{iri(first), iri(age)}, DT: xsd + "integer", Declared: xsd + "integer",
+		Value: fmt.Sprintf("int:%d", int64(full[age].(float64))), Raw: full[age], TypeTerm: C, TypeIRI: iri(C), PrefixLen: 1, Rel: []string{age}, CtxOK: true}
+	return &caseInput{Kind: "shared", Doc: mustJSON(doc), Ctx: mustJSON(map[string]any{"@context": ctx}), Leaves: []leaf{lf},
+		Features: []string{"shared-node"}}
+}
+
 // failing: contexts that cannot be loaded (top-level URL, or the URL of a scoped context).
 func (d *drv) failingCase(g *gen) *caseInput {
 	r := d.cfg.Rng
@@ -1037,6 +1073,10 @@ func Run(cfg *common.Config) (*common.Report, error) {
 	for i := 0; i < cfg.Pick(10, 200); i++ {
 		d.runCase(d.switchCase(g))
 	}
+	for i := 0; i < cfg.Pick(8, 100); i++ {
+		d.runCase(d.sharedCase(g))
+	}
+	rep.Distribution["terms-with-leading-digit"] = g.digitTerms
 	sort.Strings(rep.Notes)
 	return rep, d.writeShards()
 }
